@@ -239,4 +239,9 @@ writer, SendError under SendReply's lock) and leaked locks that would wedge ever
 theorem c17_lock_discipline :
     FV.Locks.ok [4] FV.Generated.Locks.mutexTags FV.Generated.Locks.facts = true := by decide +kernel
 
+/-- **No mutex is copied** (regenerated from lib/go on every check): no method copies its receiver's struct BY
+VALUE (`x := *c`) when that struct holds a mutex by value — a clone built from such a copy would start with
+the original's mutex in whatever state a concurrent reader or writer left it. -/
+theorem c17_no_lock_copied : FV.Generated.Locks.lockCopies = [] := by decide
+
 end FV.C17
